@@ -227,6 +227,13 @@ def build_segment(case, ctx=None):
                           "supplied" % model, before=keep[0], after=Pm)
             return seg
     if ctor == 1:
+        # (two arrays of homogeneous coordinates; every other time negative and non-unit
+        # representatives of the same points)
+        if (len(case["units"]) + n) % 2:
+            if ctx is not None:
+                ctx.label("ctor=negative-representatives")
+            return hyperbolic.Segment(hyperbolic.Point(-2.5 * _proj(P)),
+                                      hyperbolic.Point(1.5 * _proj(Q)))
         return hyperbolic.Segment(_proj(P), _proj(Q))
     seg = hyperbolic.Segment(np.stack([_proj(P), _proj(Q)], axis=-2))
     if ctor == 3 and len(shape) >= 1:
